@@ -3,7 +3,7 @@
 set -e
 cd "$(dirname "${BASH_SOURCE[0]}")"
 export CARGO_NET_OFFLINE=true
-TDIR="${VERIF_TARGET_DIR:-/verif/target}"
+TDIR="${VERIF_TARGET_DIR:-$(pwd)/target}"
 mkdir -p "$TDIR"
 cd harness
 cargo build --quiet --profile verif --target-dir "$TDIR/verif"
